@@ -46,6 +46,12 @@ Sets ==
                                          FieldD("h", S, <<ArgD("l", ListOf(Named("Opts")))>>)>>),
                InputD("Outer", <<ArgDD("opts", Named("Opts"), V("obj", [x \in {} |-> 0])), ArgDD("n", I, IntV(3))>>),
                InputD("Opts", <<ArgDD("a", I, IntV(1)), ArgDD("b", I, IntV(2))>>) >>,
+    \* a directive whose argument is an input object with a default, a use that leaves the argument out, and the input type
+    \* (its last defaulted field can move into an extend block loaded before, with or after the use)
+    s14 |-> << DirectiveD("dd", <<ArgDD("o", Named("Opts"), V("obj", [x \in {} |-> 0])), ArgDD("l", ListOf(Named("Opts")), ListV(<<V("obj", [a |-> IntV(5)])>>))>>, <<"OBJECT">>),
+               WithDirs(ObjectD("Query", <<>>, <<FieldD("x", I, <<>>)>>), <<DU("dd", <<>>)>>),
+               WithDirs(ObjectD("W", <<>>, <<FieldD("w", I, <<>>)>>), <<DU("dd", <<AV("o", V("obj", [a |-> IntV(7)]))>>)>>),
+               InputD("Opts", <<ArgDD("a", I, IntV(1)), ArgDD("b", I, IntV(2))>>) >>,
     s6 |-> <<DQ1, DA1, DE, FIface, DN>>,          \* invalid: Z does not provide N.name
     s7 |-> <<DQ1, DA1, FInOut, DE>> ]              \* invalid: input field of object type
 
